@@ -39,7 +39,7 @@ var c09Offences = []string{
 	"malformed-first", "malformed-middle", "malformed-last", "connection-specific", "bad-pseudo", "pseudo-after-regular", "te-gzip", "content-length-nan",
 	"oversized-body", "content-length-mismatch", "refused",
 	"peer-rst-before-body", "peer-rst-mid-body", "peer-rst-handler-running", "peer-rst-flow-blocked",
-	"handler-panic", "window-update-0", "window-update-overflow",
+	"handler-panic", "response-body-fails-at-first-read", "response-body-fails-midway", "window-update-0", "window-update-overflow",
 	"inflight-data", "inflight-trailers", "inflight-trailers-continuation", "inflight-window-update",
 	"refused-after-malformed-with-size-update", "inflight-trailers-with-size-update",
 	"window-update-0-handler-running", "window-update-overflow-handler-running",
@@ -217,6 +217,21 @@ func (x *c09Run) offender(cs c09Case) (tr []tframe, after func()) {
 			for _, c := range h.Calls {
 				if c.Stream == id && !c.Returned {
 					h.Finish(c.Idx, harness.Resp{Panic: true})
+				}
+			}
+		}
+	case "response-body-fails-at-first-read", "response-body-fails-midway":
+		// the handler answers 502 with a streamed body whose reader fails (at once, or after its first chunk): the
+		// stream is lost, the header compression state shared with the later responses must not be
+		tr = block(good(), true)
+		after = func() {
+			fail := 1
+			if cs.Offence == "response-body-fails-midway" {
+				fail = 2
+			}
+			for _, c := range h.Calls {
+				if c.Stream == id && !c.Returned {
+					h.Finish(c.Idx, harness.Resp{Status: 502, Headers: [][2]string{{"X-Upstream", "gone"}}, Stream: &harness.BodyStream{Chunks: [][]byte{[]byte("partial"), []byte("never")}, Declared: -1, FailAfter: fail}})
 				}
 			}
 		}
@@ -470,8 +485,20 @@ func c09Exec(cs c09Case) (*fw.Violation, *harness.Server, int) {
 		}
 		return mk("later-streams-refused", shape, fmt.Sprintf("after offence %q on stream %d and with every handler returned, 3 requests opened at once (the advertised limit) led to %d handler calls (%s)", cs.Offence, x.xid, len(h.Calls)-before, strings.Join(got, ", "))), h, nOrder
 	}
-	for _, c := range h.Calls[before:] {
-		h.Finish(c.Idx, resp)
+	// they are answered with statuses outside the static table (the only response fields the server's encoder puts
+	// into its dynamic table): the response side of the compression context must have survived the failed stream
+	for k, c := range h.Calls[before:] {
+		late := harness.Resp{Status: []int{201, 502, 201}[k%3], Body: []byte("late"), Headers: [][2]string{{"X-R", "r"}}}
+		h.Finish(c.Idx, late)
+		if v := check(); v != nil {
+			return v, h, nOrder
+		}
+		if d, cls := harness.CheckResponse(h.Streams[c.Stream], late); d != "" {
+			return mk("later-response-not-intact", shape+" "+cls, fmt.Sprintf("stream %d, opened after offence %q on stream %d was over: %s", c.Stream, cs.Offence, x.xid, d)), h, nOrder
+		}
+	}
+	if h.HpackErr != "" {
+		return mk("response-header-block-invalid", shape, h.HpackErr), h, nOrder
 	}
 	return nil, h, nOrder
 }
